@@ -486,8 +486,8 @@ func runSched(run *evid.Run, deadline time.Time) {
 	}
 	if run.Thorough() {
 		specs = []*sspec{
-			{name: "events max=1", maxOpen: 1, lists: [][]string{{"p", "q", "pq", "qLp"}, {"p", "pq"}}, dts: []int{9, 2, 11}, depth: 8},
-			{name: "events max=2", maxOpen: 2, lists: [][]string{{"p", "pq", "Lqp"}, {"p", "pq"}}, dts: []int{9, 2}, depth: 8},
+			{name: "events max=1", maxOpen: 1, lists: [][]string{{"p", "q", "pq", "qLp"}, {"p", "pq"}}, dts: []int{9, 2, 11}, depth: 9},
+			{name: "events max=2", maxOpen: 2, lists: [][]string{{"p", "pq", "Lqp"}, {"p", "pq"}}, dts: []int{9, 2}, depth: 9},
 		}
 	}
 	for _, sp := range specs {
